@@ -3,7 +3,8 @@
    for each rule (no spurious refusal by that rule).  The global converse - a valid design passes every rule and every
    assertion of the pipeline - is not one theorem: it is covered by the valid stream of the correspondence (partial). *)
 From VV Require Import Model.Base Model.Pattern Model.Seq Model.CodonTable Model.Transcript Model.Mutators Model.Targeton Model.Views
-  Model.Config Model.Refusal Proofs.CodonProofs Proofs.ConfigProofs Proofs.RefusalProofs Proofs.ProgressProofs.
+  Model.Config Model.Refusal Proofs.CodonProofs Proofs.ConfigProofs Proofs.RefusalProofs Proofs.ProgressProofs
+  Model.MutatorsGlue Model.Cdna Proofs.CdnaProofs.
 
 (* a codon-level mutator requested for a non-coding region *)
 Theorem C19_cds_mutator_noncoding_refused : forall q ms k,
@@ -97,6 +98,11 @@ Example C19_example :
   region_exon_id ex (mkRange 18 31) = Err InvalidTargetonRegion.
 Proof. vm_compute. repeat split. Qed.
 
+(* cDNA mode: a region 2 that overlaps the annotated CDS without lying inside it is refused (ValueError -> exit 1), whatever is asked of it *)
+Theorem C19_cdna_partial_cds_refused : forall tb c q r ms,
+  overlaps r c = true -> range_in r c = false -> cdna_region_rows tb (Some c) q r ms = Err ValueError.
+Proof. exact cdna_partial_cds_refused. Qed.
+
 Print Assumptions C19_cds_mutator_noncoding_refused.
 Print Assumptions C19_region_straddles_refused.
 Print Assumptions C19_region_two_exons_refused.
@@ -109,3 +115,4 @@ Print Assumptions C19_fixed_labels_parse.
 Print Assumptions C19_deletion_labels_roundtrip.
 Print Assumptions C19_invalid_configuration_refused.
 Print Assumptions C19_ambiguous_base_refused.
+Print Assumptions C19_cdna_partial_cds_refused.
